@@ -151,3 +151,38 @@ Proof.
   - apply alias_consistent_mergeable; vm_compute; reflexivity.
   - vm_compute. reflexivity.
 Qed.
+
+From Coq Require Import String.
+Local Open Scope string_scope.
+Local Open Scope list_scope.
+
+(* rd_mergeable is needed: type Query { a: A  b: B }  type A { j: Int  k: Int }  type B { k: String },
+   `{ x: a { j }  x: b { k } }` (not a valid document: the two fields of response key x do not merge) and an A whose k
+   resolves to "s": the executor completes k with the type of B.k, the reference with the type of A.k *)
+Definition x_mg_schema : schema :=
+  {| sch_def := x_sdef; sch_dirdefs := [];
+     sch_types := [x_scalar "Int"; x_scalar "String";
+                   EObject None (xs "A") [] [] [x_fd "j" (TNamed (xs "Int")); x_fd "k" (TNamed (xs "Int"))] false;
+                   EObject None (xs "B") [] [] [x_fd "k" (TNamed (xs "String"))] false;
+                   EObject None (xs "Query") [] [] [x_fd "a" (TNamed (xs "A")); x_fd "b" (TNamed (xs "B"))] false] |}.
+Definition x_mg_doc : document :=
+  [DOperation OpQuery None [] []
+     [SField (Some (xs "x")) (xs "a") [] [] [SField None (xs "j") [] [] []];
+      SField (Some (xs "x")) (xs "b") [] [] [SField None (xs "k") [] [] []]]].
+Definition x_mg_world : world :=
+  [((0%N, xs "a"), BhObject 1%N (xs "A")); ((1%N, xs "j"), BhLeaf (JInt 1)); ((1%N, xs "k"), BhLeaf (JStr (xs "s")))].
+
+Lemma c26_mergeable_needed :
+  (exists d, td_build x_mg_schema x_mg_doc = Some d /\ sch_exec_wf x_mg_schema = true /\
+             known_covariant x_mg_schema d = false /\ rd_acyclic d = true /\ rd_alias_consistent d = false) /\
+  fst (execute_request x_mg_schema x_mg_doc [] x_mg_world) =
+    EoResponse {| er_data := Some [(xs "x", JObj [(xs "j", JInt 1); (xs "k", JStr (xs "s"))])]; er_errors := [] |} /\
+  ref_execute x_mg_schema x_mg_doc [] x_mg_world =
+    EoResponse {| er_data := Some [(xs "x", JObj [(xs "j", JInt 1); (xs "k", JNull)])];
+                  er_errors := [{| ge_class := EcLeaf; ge_path := [PsKey (xs "x"); PsKey (xs "k")] |}] |}.
+Proof.
+  split; [|split].
+  - eexists. repeat split; vm_compute; reflexivity.
+  - vm_compute. reflexivity.
+  - vm_compute. reflexivity.
+Qed.
